@@ -219,7 +219,7 @@ func runDKG(a *api, n, t, tampered int, ids ...uint16) dkgCase {
 		if err != nil || v.Init(rawPP) != nil {
 			res.SigsVerify = false
 		}
-		for _, sub := range subsetsOf(n) {
+		for _, sub := range checkedSubsets(n, t) {
 			if len(sub) < t {
 				continue
 			}
@@ -284,7 +284,7 @@ func runDKG(a *api, n, t, tampered int, ids ...uint16) dkgCase {
 				pks[j].Y = append(pks[j].Y, y)
 			}
 		}
-		for _, sub := range subsetsOf(n) {
+		for _, sub := range checkedSubsets(n, t) {
 			if len(sub) < t {
 				continue
 			}
@@ -294,6 +294,22 @@ func runDKG(a *api, n, t, tampered int, ids ...uint16) dkgCase {
 				res.TPKIsSecret = false
 			}
 		}
+	}
+	return res
+}
+
+// checkedSubsets: all subsets for small n; for a large n the complete set, all but one, the first t, the last t, 1..21 and
+// a band in the middle (2^n subsets are out of reach; the interesting ones are the large ones)
+func checkedSubsets(n, t int) [][]int64 {
+	if n <= 8 {
+		return subsetsOf(n)
+	}
+	res := [][]int64{rangeSet(1, int64(n)), rangeSet(2, int64(n)), rangeSet(1, int64(t)), rangeSet(int64(n-t+1), int64(n))}
+	if n >= 21 && t <= 21 {
+		res = append(res, rangeSet(1, 21))
+	}
+	if t <= n-4 {
+		res = append(res, rangeSet(3, int64(n-2)))
 	}
 	return res
 }
@@ -312,6 +328,11 @@ func dkgCases(a *api, thorough bool) {
 	}
 	// participant identifier sets that are not 1..n (bls: every >= t subset signs and verifies through bls.Verifier, which maps
 	// identifiers to ranks)
+	if thorough {
+		// a complete key generation with more than 20 parties (products of evaluation points beyond 2^63)
+		emit(runDKG(a, 22, 2, 0))
+		emit(runDKG(a, 22, 21, 0))
+	}
 	// instance reuse: the SAME objects through two and three consecutive Init + KeyGen runs (public API only); each run is
 	// judged like a run on fresh objects.  (n, t, moved key of party k or 0, identifiers) per run
 	type rn struct {
